@@ -165,7 +165,11 @@ def minimise(ex, scn, out, cls):
     """Make the schedule explicit, then greedily drop context switches, jobs and processes
     while the same violation class persists."""
     def fails(s):
-        o = ex.run1(s)
+        try:
+            o = ex.run1(s)
+        except Exception:
+            # an explicit schedule that is not feasible for the shrunk scenario ("replay diverged"): not a reproduction
+            return False, {}
         return cls in [v[0] for v in o.get("violations", [])], o
 
     # fewer processes / a single job: search nearby seeded scenarios for the same class
